@@ -49,13 +49,13 @@ CPU_MODES_THOROUGH = CPU_MODES + [
 ]
 
 PROPS = {
-    "C01": dict(ties=['Schedules', 'Consts', 'GoIpa.Lemmas.Grouping', 'GoIpa.Lemmas.DivideOnDomain', 'GoIpa.Lemmas.MpAlgebra', 'GoIpa.Lemmas.MpComplete', 'GoIpa.Lemmas.MpVerifier', 'GoIpa.Props.C01Complete', 'GoIpa.Lemmas.ZpField', 'GoIpa.Lemmas.Primes', 'GoIpa.Props.Concrete', 'GoIpa.Lemmas.Simulation', 'GoIpa.Props.ConcreteExec'], level="proof", selftest=True, modes=CPU_MODES, thorough=dict(modes=CPU_MODES_THOROUGH),
+    "C01": dict(ties=['Loops', 'Schedules', 'Consts', 'GoIpa.Lemmas.Grouping', 'GoIpa.Lemmas.DivideOnDomain', 'GoIpa.Lemmas.MpAlgebra', 'GoIpa.Lemmas.MpComplete', 'GoIpa.Lemmas.MpVerifier', 'GoIpa.Props.C01Complete', 'GoIpa.Lemmas.ZpField', 'GoIpa.Lemmas.Primes', 'GoIpa.Props.Concrete', 'GoIpa.Lemmas.Simulation', 'GoIpa.Props.ConcreteExec'], level="proof", selftest=True, modes=CPU_MODES, thorough=dict(modes=CPU_MODES_THOROUGH),
                 rule="openings sets over n in {1..300}, six z patterns (all equal, all distinct, two clusters, single index after a gap, straddling group, random), polynomials zero/constant/unit/sparse/r-1/random, commitments as shared pointers / rescaled / sign-flipped, labels empty..70 bytes; each case under several CPU-count/GOMAXPROCS configurations (taskset)."),
     "C02": dict(ties=['Schedules', 'Consts', 'GoIpa.Props.C02Mp'], level="proof", selftest=True,
                 rule="honest (label,Cs,zs,ys,proof) tuples and every single-component perturbation, reorderings, dropped/duplicated openings, splices of two honest proofs, malformed shapes, well-formed garbage; each implementation decision also re-evaluated under three re-representations of all group elements."),
     "C03": dict(ties=['Schedules', 'Consts'], level="proof", selftest=True, modes=CPU_MODES, thorough=dict(modes=CPU_MODES_THOROUGH),
                 rule="as C01 plus stand-alone IPA proofs; byte-for-byte comparison of the serialized proof and of the post-proof challenge with the Lean model (which reproduces the published cross-implementation vectors), under several CPU-count/GOMAXPROCS configurations."),
-    "C04": dict(ties=['Schedules', 'Consts', 'GoIpa.Lemmas.IpaAlgebra', 'GoIpa.Lemmas.FoldingScalars', 'GoIpa.Props.C04Value', 'GoIpa.Lemmas.Simulation', 'GoIpa.Props.ConcreteExec'], level="proof", selftest=True, modes=[{"name": "default"}, {"name": "cpu3", "prefix": taskset(3)}, {"name": "cpu6-procs5", "prefix": taskset(6), "env": {"GOMAXPROCS": "5"}}],
+    "C04": dict(ties=['Loops', 'Schedules', 'Consts', 'GoIpa.Lemmas.IpaAlgebra', 'GoIpa.Lemmas.FoldingScalars', 'GoIpa.Props.C04Value', 'GoIpa.Lemmas.Simulation', 'GoIpa.Props.ConcreteExec'], level="proof", selftest=True, modes=[{"name": "default"}, {"name": "cpu3", "prefix": taskset(3)}, {"name": "cpu6-procs5", "prefix": taskset(6), "env": {"GOMAXPROCS": "5"}}],
                 rule="evaluation points 0,1,254,255,256,257,2^64-1,2^64,2^64+1,r-1,r-256,random x polynomials zero/constant/unit/sparse/r-1/random; result p(z) must be accepted, p(z)+1, p(z)-1 and 0 rejected (asserted on the implementation); barycentric value against direct Lagrange evaluation."),
     "C05": dict(ties=['Formulas', 'Consts', 'Selector', 'Precomp'], level="proof",
                 modes=[{"name": "default"}, {"name": "cpu6", "prefix": taskset(6)}, {"name": "cpu3-procs3", "prefix": taskset(3)}],
@@ -88,13 +88,13 @@ PROPS = {
                 rule="mixed API histories executed sequentially; a fingerprint of SRS, Q, weight tables, precomputed tables (strided per call, complete before/after the history), package variables and labels is taken around every call; every call checks its own inputs bit-for-bit afterwards; outputs compared with the model (history independence: the model is a pure function of the case line)."),
     "C14": dict(ties=['Schedules'], level="proof", selftest=True, verdict=c14_verdict,
                 rule="operation sequences of length 0..64 (thorough 0..512) over the five operations, empty labels/messages, pending buffers beyond 1 kB / 4 kB / 20 kB, scalars 0, r-1, points in several representations, consecutive challenges; binding pairs (same-shape byte change, swap, drop, protocol label change, label/message boundary shift)."),
-    "C15": dict(ties=['FrConsts', 'FrLimbs', 'GoIpa.Lemmas.Cios', 'GoIpa.Lemmas.ZpField', 'GoIpa.Lemmas.Primes', 'GoIpa.Lemmas.InverseProof', 'GoIpa.Lemmas.SqrtProof'], level="proof",
+    "C15": dict(ties=['Loops', 'FrConsts', 'FrLimbs', 'GoIpa.Lemmas.Cios', 'GoIpa.Lemmas.ZpField', 'GoIpa.Lemmas.Primes', 'GoIpa.Lemmas.InverseProof', 'GoIpa.Lemmas.SqrtProof'], level="proof",
                 rule="Montgomery-limb boundary grid {0,1,2^63,2^64-1,q_i-1,q_i,q_i+1}^4 restricted to < r (1207 values): full cross product for add/sub/mul/cmp in thorough, all values plus 25k random pairs in quick; unary ops on grid, values within 2 of 0, r/2, r, R mod r, special and random values; div/exp pairs; BatchInvert with zeros at every position; every op through the assembly path, the assembly path with ADX disabled, the portable generic functions and all aliasing patterns."),
     "C16": dict(ties=['FrConsts'], level="proof",
                 rule="byte strings of every length 0..64 for the three decoders; values 0,1,r-1,r,r+1,2r-1,2r,p,2^256-1 in 32/33/40/64-byte encodings; canonical and just-non-canonical 32-byte values; the caller's buffer is compared before/after and decoded twice."),
     "C17": dict(ties=['Formulas', 'SqrtChain', 'GoIpa.Lemmas.ZpField', 'GoIpa.Lemmas.Primes', 'GoIpa.Lemmas.SqrtPrecompProof'], level="proof",
                 rule="0,1,2,4,5,7,p-1,p-2,-5,d; every 2^k-th root of unity (k=0..32) and products with odd-order elements; every 8-bit value in each of the four discrete-log blocks with the other blocks zero/random/odd/even; random squares and non-squares in equal share; point recovery for random x with both sign requests."),
-    "C18": dict(ties=['Consts', 'GoIpa.Lemmas.DivideOnDomain'], level="proof", modes=[{"name": "default"}, {"name": "cpu3", "prefix": taskset(3)}, {"name": "cpu7-procs5", "prefix": taskset(7), "env": {"GOMAXPROCS": "5"}}],
+    "C18": dict(ties=['Loops', 'Consts', 'GoIpa.Lemmas.DivideOnDomain'], level="proof", modes=[{"name": "default"}, {"name": "cpu3", "prefix": taskset(3)}, {"name": "cpu7-procs5", "prefix": taskset(7), "env": {"GOMAXPROCS": "5"}}],
                 rule="both precomputed tables (512+510 entries); f in {random, unit vectors, constant, r-1, zero, X^255}; z in {256,257,r-1,2^200,random}: inner product with barycentric coefficients against direct Lagrange evaluation; DivideOnDomain for all 256 indices against the model and the defining relation q_i (i-k) = f_i - f_k."),
     "C19": dict(level="proof", race=True, modes=[{"name": "default"}, {"name": "conc16", "args": ["-conc", "16"], "workers": 1, "filter": "^batch ", "env": {"VERIF_BATCH_REPEAT": "40"}}],
                 rule="element lists of length 0..310 from random histories with repeated pointers (alias), mixed normalised/projective/sign-flipped, identity included: batch serialisers, BatchMapToScalarField, BatchNormalize vs single-element results from the model; one un-normalisable element (Z=0) at each position must fail with nothing modified."),
